@@ -43,4 +43,33 @@ PROPS["C17"] = dict(
     trusted=["verif hooks VerifNewFragBuf, VerifReadHandshakes, VerifWriteHandshake (dtlcp)", "virtual-time network tk.VNet for the PMTU-pair runs"],
 )
 
+PROPS["C20"] = dict(
+    technique="Coq proofs (conservation invariant by induction over reads, closed form of ReadFull over chunked transports) on a model of ProtocolDetectConn / detect; vm_compute correspondence through the public pa API",
+    level_text="Theorems for every transport segmentation and every sequence of read-buffer sizes (routing by byte 1, transparency = nothing lost/duplicated/"
+               "reordered, short stream is an error, progress) proved in Coq; the model and a stream-level predicate are evaluated in Coq on what "
+               "pa.NewListener / ProtocolDetectConn did for all 256 version bytes, segmentations, early disconnects and configurations; real TLCP and TLS "
+               "handshakes are run through the adapter and directly.",
+    level_note="Trusted: Coq kernel + vm_compute; hand-written model tied by correspondence; crypto/tls and tlcp.Server behind the adapter are exercised, not modelled; "
+               "the mutex in ProtocolSwitchServerConn belongs to C13.",
+    code_names={1: "short-stream-not-an-error", 2: "error-on-complete-header", 3: "bytes-lost-or-altered", 4: "unexpected-read-error",
+                5: "eof-before-all-bytes", 6: "wrong-route", 7: "handshake-through-adapter-fails", "hang": "hang"},
+    assumptions=["the transport returns at most the requested bytes per Read and EOF at the end (net.Conn contract)"],
+    trusted=["public API only: pa.NewListener, pa.ProtocolDetectConn, pa.ProtocolSwitchServerConn.ProtectedConn"],
+)
+
+PROPS["C18"] = dict(
+    technique="Coq proofs of injectivity of the cookie input encoding and of the covered-field encoding, binding under an explicit HMAC-collision-freeness premise, loop invariant of the cookie exchange; correspondence recomputes every cookie with a Gallina SM3/HMAC",
+    level_text="Theorems (encoding injective, binding to address/fields/secret, only HelloVerifyRequests and no key operation before a valid cookie, "
+               "no amplification) proved in Coq; every cookie the Go code issues is recomputed bit for bit by an independent SM3/HMAC-SM3 written in "
+               "Gallina from the standard; a real server is fed scripted ClientHello sequences under virtual time with instrumented private keys.",
+    level_note="Trusted: Coq kernel + vm_compute; HMAC idealised as collision-free (explicit premise of C18_binding); hand-written model tied by correspondence; "
+               "the default per-connection random secret is observed only through differing cookies.",
+    code_names={1: "cookie-bytes-differ-from-HMAC-SM3-of-unambiguous-encoding", 2: "cookie-accepted-for-other-address-fields-secret-or-bytes",
+                3: "valid-cookie-refused", 4: "covered-field-encoding-differs", 10: "not-exactly-one-response-before-valid-cookie",
+                11: "response-before-valid-cookie-is-not-HelloVerifyRequest", 12: "HelloVerifyRequest-larger-than-request",
+                13: "private-key-operation-before-valid-cookie", 14: "valid-cookie-answered-by-HelloVerifyRequest", 15: "HelloVerifyRequest-cookie-differs", "hang": "hang"},
+    assumptions=["HMAC-SM3 behaves as a collision-free keyed function (C18_binding premise)"],
+    trusted=["verif hooks VerifGenerateCookie, VerifVerifyCookie, VerifClientHello (dtlcp)", "tk.CountKey instrumented keys passed through the public Config", "Spec/SM3.v (validated on the GB/T 32905 vectors inside Coq)"],
+)
+
 NOT_YET = {}
